@@ -96,10 +96,13 @@ deriving Repr, DecidableEq
 
 inductive Svc where
   | write (x : Nat) | read | browse | sub
+  | other (k : Nat)      -- any further service behind `validate_service_request` without an effect the probe shows
+                         -- (Cancel, Call, Publish, TranslateBrowsePaths, RegisterNodes … numbered by the harness)
 deriving Repr, DecidableEq
 
 inductive Op where
   | create (timeoutBits : Nat)
+  | createBadUrl         -- CreateSession whose endpoint url is null or matches no endpoint
   | activate (t : Tok) (c : Cred)
   | close (t : Tok)
   | service (t : Tok) (s : Svc)
@@ -110,7 +113,7 @@ deriving Repr, DecidableEq
 
 inductive Status where
   | BadTooManySessions | BadSessionIdInvalid | BadSessionNotActivated | BadSecureChannelIdInvalid
-  | BadUserAccessDenied | BadIdentityTokenInvalid
+  | BadUserAccessDenied | BadIdentityTokenInvalid | BadTcpEndpointUrlInvalid
 deriving Repr, DecidableEq
 
 inductive Out where
@@ -121,6 +124,7 @@ inductive Out where
   | readv (v : Nat)
   | browsed
   | subscribed (n : Nat)
+  | served (k : Nat)
   | discovered
   | done
   | fault (s : Status)
@@ -170,8 +174,13 @@ def perform (s : St) (x : Sess) : Svc → St × Out
   | .read => (s, .readv s.v)
   | .browse => (s, .browsed)
   | .sub => (setSess s x.token (fun y => { y with subs := y.subs + 1 }), .subscribed (x.subs + 1))
+  | .other k => (s, .served k)
 
 def step (s : St) : Op → St × Out
+  | .createBadUrl =>
+    -- the capacity test of `handle_message` comes first, then `create_session` rejects the url
+    if s.sessions.length ≥ maxSessions then (s, .fault .BadTooManySessions)
+    else (s, .fault .BadTcpEndpointUrlInvalid)
   | .create bits =>
     if s.sessions.length ≥ maxSessions then (s, .fault .BadTooManySessions)
     else
